@@ -10,7 +10,9 @@ VAL_ATOMS = [b"v", b"1", b"prod", b"a=b", b"with space", b"\xf0\x9f\x98\x80", b"
 # IsLetter, IsSpace, ...), and code points whose low byte is a delimiter of the line syntax (U+043A ':' U+043D '=' U+017C '|'
 # U+0123 '#' U+012C ',' U+0140 '@' U+015B '[' U+015D ']')
 UNICODE_ATOMS = [x.encode("utf-8") for x in ("\u0663", "\uff11", "\u0968", "\u2167", "\u00b2", "\u00c9", "\u043d", "\u043a", "\u4e3d", "\u4e3a",
-                                              "\u0301", "\u203f", "\u00a0", "\u017c", "\u0123", "\u012c", "\u0140", "\u015b", "\u015d", "\u212a")]
+                                              "\u0301", "\u203f", "\u00a0", "\u017c", "\u0123", "\u012c", "\u0140", "\u015b", "\u015d", "\u212a",
+                                              # low byte = '-', '_', '.', ':', '=' in 2-, 3- and 4-byte encodings
+                                              "\u012d", "\u4e2d", "\U0001f32d", "\u015f", "\u012e", "\u013a", "\u013d", "\u012d-", "\u4e2d-x")]
 # names and values that contain bytes of the sample syntax itself
 # two strings with equal 64-bit FNV-1a sums (a memo table or a set keyed by the hash alone confuses them)
 FNV64_TWINS = [b"gadlgenekeokochf", b"cmafdfhkcfbljoif"]
@@ -111,6 +113,11 @@ def c09_datum(rnd):
         ts[-1] = ("kv", b"k", b"v")
     if rnd.random() < 0.25:
         vals = [rnd.choice(GOOD_NUMS[:12]) for _ in range(rnd.randint(2, 4))]
+        if rnd.random() < 0.4 and all(t[0] == "kv" and t[1] and t[2] for t in ts):
+            # a value that does not parse, first, last or anywhere: the other values' events keep their labels in every syntax
+            # (with well-formed tags only: a malformed tag is counted once per VALID value by the DogStatsD path)
+            pos = rnd.choice([0, len(vals) - 1, rnd.randrange(len(vals))])
+            vals[pos] = rnd.choice([b"", b"oops", b"12ms", b"1e999", b"0x1", b"--1"])
         tail = b":".join(vals) + b"|" + rnd.choice([b"ms", b"h", b"d"])
         if rnd.random() < 0.5:
             tail += b"|@" + rnd.choice(RATES)
